@@ -881,9 +881,6 @@ func runCtx(d desc) hlib.Case {
 		c.Coq = hlib.App("CLifeEnd", "MReq", hlib.List(rops), hlib.List(cs))
 		c.Kind = "ctx-reqstream"
 		c.Sig = fmt.Sprintf("ctx-reqstream-closer%v-ka%v", closer, d.KeepAlive)
-		if closer && d.KeepAlive {
-			c.Key = "server-drops-request-stream"
-		}
 		return c
 	}
 	// the write may or may not fail (the client may be gone): both end in the same counts
